@@ -328,29 +328,43 @@ def check_sibling(ctx, setup, s1, lip, s2):
 
 
 def check_loss(ctx, fi):
+    """Works on the three copies of _marginal_loss: the two estimators' (loop over cliques, then over the clique's
+    group, with a projection) and PublicInference's (one loop over self.measurements, no projection)."""
     ctx.analysed(fi)
-    outer = [s for s in fi.body if isinstance(s, ast.For)]
-    if len(outer) != 1 or not isinstance(outer[0].target, ast.Name):
-        raise AnalysisError('_marginal_loss: loop over the marginals not found')
-    outer = outer[0]
-    cl = outer.target.id
-    marg = U(outer.iter)
-    inner = [s for s in outer.body if isinstance(s, ast.For)]
-    if len(inner) != 1 or not isinstance(inner[0].target, ast.Tuple) or len(inner[0].target.elts) != 4:
-        raise AnalysisError('_marginal_loss: loop over the measurements of a clique not found')
-    inner = inner[0]
-    Q, y, noise, proj = [U(e) for e in inner.target.elts]
-    ctx.ob('projection-order', fi, inner, U(inner.iter) == 'self.groups[%s]' % cl,
-           'the measurements evaluated for clique `%s` must be the ones setup attached to it (self.groups[%s])' % (cl, cl))
+    marg = fi.params[1]
+    tops = [s for s in fi.body if isinstance(s, ast.For)]
+    if len(tops) != 1:
+        raise AnalysisError('%s: main loop not found' % fi.qualname)
+    top = tops[0]
     pre = {}
-    for s in outer.body:
-        if isinstance(s, ast.Assign) and len(s.targets) == 1 and isinstance(s.targets[0], ast.Name):
-            pre[s.targets[0].id] = s.value
+    if isinstance(top.target, ast.Name):
+        outer = top
+        cl = outer.target.id
+        inner = [s for s in outer.body if isinstance(s, ast.For)]
+        if len(inner) != 1 or not isinstance(inner[0].target, ast.Tuple) or len(inner[0].target.elts) != 4:
+            raise AnalysisError('%s: loop over the measurements of a clique not found' % fi.qualname)
+        inner = inner[0]
+        Q, y, noise, proj = [U(e) for e in inner.target.elts]
+        ctx.ob('projection-order', fi, inner, U(inner.iter) == 'self.groups[%s]' % cl and U(outer.iter) == marg,
+               'the measurements evaluated for clique `%s` must be the ones setup attached to it (self.groups[%s])' % (cl, cl))
+        for s in outer.body:
+            if isinstance(s, ast.Assign) and len(s.targets) == 1 and isinstance(s.targets[0], ast.Name):
+                pre[s.targets[0].id] = s.value
+        shape = 'grouped'
+    elif isinstance(top.target, ast.Tuple) and len(top.target.elts) == 4:
+        inner = top
+        Q, y, noise, cl = [U(e) for e in inner.target.elts]
+        proj = None
+        ctx.ob('projection-order', fi, inner, U(inner.iter) == 'self.measurements',
+               'every stored measurement contributes exactly once (loop over self.measurements)')
+        shape = 'flat'
+    else:
+        raise AnalysisError('%s: unrecognised loop structure' % fi.qualname)
     # ---- straight-line prefix of the inner body, then the metric branch ---------------------------------
     body = inner.body
     branch = [s for s in body if isinstance(s, ast.If)]
     if len(branch) != 1:
-        raise AnalysisError('_marginal_loss: metric branch not found')
+        raise AnalysisError('%s: metric branch not found' % fi.qualname)
     branch = branch[0]
     t = branch.test
     if not (isinstance(t, ast.Compare) and isinstance(t.comparators[0], ast.Constant) and t.comparators[0].value == 'L1'
@@ -363,26 +377,30 @@ def check_loss(ctx, fi):
             break
         if isinstance(s, ast.Assign) and len(s.targets) == 1 and isinstance(s.targets[0], ast.Name):
             defs[s.targets[0].id] = s
-    # x: the datavector of the projected marginal
+    # x: the datavector of the (projected) marginal
     for name, s in defs.items():
         v = s.value
         if isinstance(v, ast.Call) and isinstance(v.func, ast.Attribute) and v.func.attr == 'datavector' and not v.args:
             xname = name
             xsrc = v.func.value
     if xname is None:
-        raise AnalysisError('_marginal_loss: data vector of the projected marginal not found')
+        raise AnalysisError('%s: data vector of the marginal not found' % fi.qualname)
     mu2 = U(xsrc)
     mu2_def = defs.get(mu2)
-    mu = None
-    ok_proj = False
-    if mu2_def is not None and isinstance(mu2_def.value, ast.Call) and isinstance(mu2_def.value.func, ast.Attribute) \
-            and mu2_def.value.func.attr == 'project' and len(mu2_def.value.args) == 1 and U(mu2_def.value.args[0]) == proj:
-        mu = U(mu2_def.value.func.value)
-        src = pre.get(mu)
-        ok_proj = src is not None and U(src) == '%s[%s]' % (marg, cl)
-    ctx.ob('projection-order', fi, mu2_def or defs[xname], ok_proj,
-           'x must be the data vector of %s[%s].project(%s): Factor.project answers in the attribute order of the measurement; '
-           'source: %s = `%s`' % (marg, cl, proj, mu2, U(mu2_def.value) if mu2_def is not None else '?'))
+    if shape == 'grouped':
+        ok_proj = False
+        if mu2_def is not None and isinstance(mu2_def.value, ast.Call) and isinstance(mu2_def.value.func, ast.Attribute) \
+                and mu2_def.value.func.attr == 'project' and len(mu2_def.value.args) == 1 and U(mu2_def.value.args[0]) == proj:
+            mu = U(mu2_def.value.func.value)
+            src = pre.get(mu)
+            ok_proj = src is not None and U(src) == '%s[%s]' % (marg, cl)
+        ctx.ob('projection-order', fi, mu2_def or defs[xname], ok_proj,
+               'x must be the data vector of %s[%s].project(%s): Factor.project answers in the attribute order of the measurement; '
+               'source: %s = `%s`' % (marg, cl, proj, mu2, U(mu2_def.value) if mu2_def is not None else '?'))
+    else:
+        ok = mu2_def is not None and U(mu2_def.value) == '%s[%s]' % (marg, cl)
+        ctx.ob('projection-order', fi, mu2_def or defs[xname], ok,
+               'x must be the data vector of %s[%s], the marginal the measurement was taken on' % (marg, cl))
     scal = {noise: sym(noise)}
     ev = LinEval({xname: Lin([((), 'x', Rat.const(1))]), y: Lin([((), 'y', Rat.const(1))])}, {Q}, scal)
     env_stmts = [s for s in body if s is not branch and isinstance(s, ast.Assign) and len(s.targets) == 1
